@@ -209,7 +209,8 @@ theorem core_path_of_clean_extends (root f rest : Str) (ha : isAbs root = true) 
     ∃ p, modulePath root f = some p ∧ (∀ c ∈ splitSlash p, c ≠ dotdot) ∧
       ∀ out, isAbs out = true → within (clean out) (join2 out p) = true := by
   let pkg : Str := if comps rest = [] then dot else joinSlash (comps rest)
-  refine ⟨join2 pkg (base pkg ++ goSuffix), (modulePath_iff _ _ _).2 ⟨pkg, ?_, rfl⟩, ?_, ?_⟩
+  refine ⟨join2 pkg (base pkg ++ goSuffix), (modulePath_iff _ _ _).2 ⟨pkg, ?_,
+    escapesRoot_false_of_no_dotdot _ (comps_no_dotdot hr), rfl⟩, ?_, ?_⟩
   · rw [rel_congr_clean _ _ _ hg]; exact rel_extends root rest ha hc hr
   · exact core_path_no_dotdot _ (comps_no_dotdot hr)
   · exact fun out ho => core_path_confined out _ ho (comps_no_dotdot hr)
